@@ -61,10 +61,10 @@ Qed.
 Definition all_labs : list lab :=
   [LNew HAccept; LNew HReject; LNew HPause; LNew HErr; LReqCancel; LReqUpdate UOk; LReqUpdate UExt; LReqUpdate UErr;
    LReqUpdate UUnpause; LApiPause; LApiUnpause; LApiCancel; LApiUpdate; LGate GCont; LGate GPause; LGate GErr;
-   LGateHold GCont; LGateHold GPause; LGateHold GErr; LFinish; LSend true; LSend false; LHold; LRelease].
+   LGateHold GCont; LGateHold GPause; LGateHold GErr; LFinish; LArmStart; LStart; LSend true; LSend false; LHold; LRelease].
 
 Lemma all_labs_complete l : In l all_labs.
-Proof. destruct l as [[]| |[]| | | | |[]|[]| |[]| |]; simpl; tauto. Qed.
+Proof. destruct l as [[]| |[]| | | | |[]|[]| | | |[]| |]; simpl; tauto. Qed.
 
 Definition all_ords : list N := [0; 1; 2; 3; 4; 5].
 
@@ -77,7 +77,7 @@ Definition hash (s : state) : positive :=
   N.succ_pos (fold_left (fun a x => a * 7 + x)
     [bit (seen s); st_code s; bit (sig_pause s); bit (sig_upd s);
      match sig_err s with None => 0 | Some ENet => 1 | Some EReqCancel => 2 | Some EApiCancel => 3 | Some EHook => 4 end;
-     tq s; bit (held s); match gate s with None => 0 | Some false => 1 | Some true => 2 end; bit (closed s);
+     tq s; bit (held s); bit (arm s) + 2 * bit (stk s); match gate s with None => 0 | Some false => 1 | Some true => 2 end; bit (closed s);
      match fin s with None => 0 | Some FNil => 1 | Some FPaused => 2 | Some (FErr _) => 3 end;
      match infl s with None => 0 | Some m => m mod 7 end; match pend s with None => 0 | Some m => m mod 7 end;
      unprot s; n_done s; n_net s; N.of_nat (length (evs s));
@@ -206,8 +206,12 @@ Definition p_completing (s : state) : bool :=
   implb (termo (infl s) || termo (pend s)) ((st_code s =? 4) || negb (fin_none s)).
 (* once the executor is out of a response that is gone, no task of it is active or pending *)
 Definition p_task (s : state) : bool :=
-  implb (seen s && negb (has_ent s) && gate_free s && fin_none s) (tq s =? 0).
-Definition p_safety (s : state) : bool := p_protect s && p_once s && p_neterr s && p_completing s && p_task s.
+  implb (seen s && negb (has_ent s) && gate_free s && fin_none s && negb (stk s)) (tq s =? 0).
+(* a block hook is only ever running for a response that is Running; a worker parked before StartTask holds
+   the active task of a response that is not Running *)
+Definition p_exec (s : state) : bool :=
+  implb (negb (gate_free s)) (st_code s =? 2) && implb (stk s) ((tq s =? 2) && negb (st_code s =? 2) && gate_free s && fin_none s).
+Definition p_safety (s : state) : bool := p_protect s && p_once s && p_neterr s && p_completing s && p_task s && p_exec s.
 
 (* QUIESCENCE: nothing parked in a block hook, no task queued or active, nothing in flight, not paused *)
 Definition quiescent (s : state) : bool :=
@@ -237,7 +241,8 @@ Definition p_step (s : state) (lb : lab) (s' : state) : bool :=
 Definition progress_lab (s : state) : option lab :=
   match gate s with
   | Some _ => Some (LGate GCont)
-  | None => match fin s, infl s with
+  | None => if stk s then Some LStart else
+            match fin s, infl s with
             | Some _, _ => Some LFinish
             | None, Some _ => Some (LSend true)
             | None, None => if held s then Some LRelease
